@@ -4,7 +4,7 @@ import itertools
 ID = 'C07'
 LEVEL = 'exploration'
 QUICK_S = 45
-THOROUGH_S = 600
+THOROUGH_S = 300
 TECHNIQUE = ('runtime monitoring: identity of every resolved reference (or the raised error) compared with a reference resolver '
              'that scans the generated model; many grammar variants with the same rule names interleaved in one process')
 RULE = ('grammar family: abstract target Shape over every non-empty ordered subset of {Circle, Square, Wire} (15 variants, '
@@ -234,7 +234,7 @@ def one(ctx, i, rep=None):
 
 
 def run(ctx):
-    for i in ctx.indices(8000 if ctx.tier == 'quick' else 50000, 'random'):
+    for i in ctx.indices(8000 if ctx.tier == 'quick' else 10 ** 7, 'random'):
         one(ctx, i)
     ctx.count('grammar_variants', len({k[0] for k in _mms}))
 
